@@ -123,15 +123,16 @@ func StripLeadingComments(sql string) string {
 		switch sql[0] {
 		case '/':
 			// Multi line comment
-			index := strings.Index(sql, "*/")
-			if index <= 1 {
+			// the terminator is looked for after the opening "/*": "/*/" does not close
+			index := strings.Index(sql[2:], "*/")
+			if index < 0 {
 				return sql
 			}
 			// don't strip /*! ... */ or /*!50700 ... */
 			if len(sql) > 2 && sql[2] == '!' {
 				return sql
 			}
-			sql = sql[index+2:]
+			sql = sql[index+4:]
 		case '-', '#':
 			// Single line comment
 			index := strings.Index(sql, "\n")
